@@ -461,6 +461,17 @@ func Serve(opts Options) error {
 		return err
 	}
 	if opts.AppendOnly {
+		// AOFSHRINK swaps the files with two renames (live -> bak, then
+		// shrink -> live). A crash in between leaves no live file but a
+		// complete backup. Put it back instead of starting empty.
+		if _, err := os.Stat(opts.AppendFileName); os.IsNotExist(err) {
+			if _, err := os.Stat(opts.AppendFileName + "-bak"); err == nil {
+				if err := os.Rename(opts.AppendFileName+"-bak",
+					opts.AppendFileName); err != nil {
+					return err
+				}
+			}
+		}
 		f, err := os.OpenFile(opts.AppendFileName, os.O_CREATE|os.O_RDWR, 0600)
 		if err != nil {
 			return err
